@@ -140,9 +140,9 @@ func (b *c22LB) state0() connectivity.State {
 	return b.st0
 }
 
-func (b *c22LB) ResolverError(error)                                          {}
+func (b *c22LB) ResolverError(error)                                        {}
 func (b *c22LB) UpdateSubConnState(balancer.SubConn, balancer.SubConnState) {}
-func (b *c22LB) ExitIdle()                                                    {}
+func (b *c22LB) ExitIdle()                                                  {}
 func (b *c22LB) Close() {
 	b.mu.Lock()
 	b.closed = true
